@@ -86,6 +86,13 @@ def make_cases(tier, seed, n_random=None):
         if corpus or i % 3 == 0:
             cases.append(dict(kind="string", name=name, g=g, L=2 if quick else 3, srs=srs, rename=rename))
             cases.append(dict(kind="trunc", name=name, g=g, ns=[0, 1, 2, 3], L=L, srs=srs, rename=rename))
+        if corpus and i % 3 == 1:
+            # structured tokens: (word, tag) pairs are symbols of the acceptor / string / length machine, not (input, output) labels
+            # (strengthened after seeded change C09-10)
+            tup = {a: ("w", k) for k, a in enumerate(sorted(g.V))}
+            gt = type(g)(g.S, frozenset(tup.values()), [(w, h, tuple(tup.get(y, y) for y in b)) for w, h, b in g.rules])
+            cases.append(dict(kind="string", name=name + "#tup", g=gt, L=2 if quick else 3, srs=srs, rename=rename))
+            cases.append(dict(kind="trunc", name=name + "#tup", g=gt, ns=[0, 1, 2], L=L, srs=srs, rename=rename))
     return cases
 
 
